@@ -357,6 +357,8 @@ def cont(w, kind):
     w.claim(f'deserialize does not raise ({g if k3 != "ok" else ""})', k3 == 'ok')
     if k3 == 'ok':
         w.claim('equal continuation', _cont_eq(w, g, sc))
+        w.claim('nothing left unread (the whole tag and every field are consumed)',
+                w.And(w.eq_seq(bits_of(w, s), Seq()), s.ref_offset == len(s.refs)))
 
 
 @obligation('C17.native', 'C17', kind='bounded', samples=150,
